@@ -3,8 +3,8 @@
 From Coq Require Import String.
 From PX.Lib Require Import Base PyStr Regex.
 From PX.Lib Require Import PyInt.
-From PX.Model Require Import Show Validation Path Segment Syntax.
-From PX.Spec Require C13_dec C14_spec.
+From PX.Model Require Import Show Validation Path Segment Syntax Raw Reader Writer.
+From PX.Spec Require C13_dec C14_spec C04_spec C04_nest C01_spec.
 
 Definition unit_validation (args : list str) : str :=
   match args with
@@ -92,6 +92,79 @@ Definition unit_segment (args : list str) : str :=
   | _ => sl "?args"
   end.
 
+(* ---- raw / reader / writer ---- *)
+Definition SEMI : ascii := ";"%char.
+Definition DOTC : ascii := "."%char.
+Definition COLON : ascii := ":"%char.
+Definition SLASH : ascii := "/"%char.
+
+Definition parse_sched (s : str) : list nat :=
+  match s with [] => [] | _ => map arg_nat (split COMMA s) end.
+
+Definition show_seg_struct (sg : seg) : str :=
+  sep SEMI (show_opt show_hex (sid sg) :: map (fun c => sep DOTC (map show_hex c)) (els sg)).
+
+Definition show_err (e : err) : str :=
+  sep SLASH [e_lvl e; e_code e; show_opt show_Z (e_line e)].
+
+Definition show_errs (es : list err) : str := sep COMMA (map show_err es).
+
+Definition show_rawst (r : rawst) : str :=
+  sep COMMA [show_hex [r_seg_term r]; show_hex [r_ele_term r]; show_hex [r_subele_term r];
+             show_opt (fun c => show_hex [c]) (r_repetition_term r); r_icvn r].
+
+Definition unit_raw (args : list str) : str :=
+  match args with
+  | [text; sch] =>
+      show_result (fun p => sep BAR (show_rawst (fst p) :: map show_hex (snd p)))
+                  (raw_all {| rest := text; sched := parse_sched sch |})
+  | _ => sl "?args"
+  end.
+
+Definition unit_reader (args : list str) : str :=
+  match args with
+  | [lx; text; sch] =>
+      show_result
+        (fun r => match r with
+                  | (rs, out, fin) =>
+                      sep BAR (show_rawst rs ::
+                               map (fun p => show_seg_struct (fst p) ++ COLON :: show_errs (snd p)) out ++
+                               [show_result (fun es => "C"%char :: show_errs es) fin])
+                  end)
+        (read_all (str_eqb lx (sl "1")) {| rest := text; sched := parse_sched sch |})
+  | _ => sl "?args"
+  end.
+
+(* writer ops: "W<segment text>" or "C" (Close); the run stops at the first exception *)
+Fixpoint writer_ops (w : wstate) (ds : delims) (ops : list str) : list str :=
+  match ops with
+  | [] => []
+  | op :: rest =>
+      match op with
+      | c :: body =>
+          if Ascii.eqb c "W"%char then
+            match w_write w ds (parse_seg ds body) with
+            | Ok (w', out) => map show_hex out ++ writer_ops w' ds rest
+            | Raise e => [show_exn e]
+            end
+          else if Ascii.eqb c "C"%char then
+            let (w', out) := w_close w in map show_hex out ++ writer_ops w' ds rest
+          else [sl "?op"]
+      | [] => [sl "?op"]
+      end
+  end.
+
+Definition unit_writer (args : list str) : str :=
+  match args with
+  | wdl :: rep :: eol :: dsl :: lx :: ops =>
+      let w0 := w_init (mk_delims wdl) rep eol in
+      let w1 := with_x w0 {| loops := []; hl_stack := []; gs_count := 0; st_count := 0; hl_count := 0;
+                             seg_count := 0; cur_line := 0; isa_ids := []; gs_ids := []; st_ids := [];
+                             lx_count := 0; check_837_lx := str_eqb lx (sl "1") |} in
+      sep BAR (writer_ops w1 (mk_delims dsl) ops)
+  | _ => sl "?args"
+  end.
+
 (* ---- syntax ---- *)
 Definition unit_syntax (args : list str) : str :=
   match args with
@@ -142,6 +215,55 @@ Definition unit_c13_spec (args : list str) : str :=
   | _ => sl "?args"
   end.
 
+(* C04 oracle: args = delims, then the segments as read (texts); result:
+   nested flag | per-segment expected envelope codes (if the list is a tree) | codes at end of input *)
+Definition show_code (c : C04_spec.code) : str := fst c ++ SLASH :: snd c.
+Definition unit_c04_spec (args : list str) : str :=
+  match args with
+  | dl :: segs =>
+      let d := mk_delims dl in
+      let l := map (parse_seg d) segs in
+      sep BAR [show_bool (C04_spec.properly_nested l);
+               match C04_nest.nest l with
+               | Some t => "S"%char :: sep SEMI (map (fun cs0 => sep COMMA (map show_code cs0)) (C04_spec.recount d [] t))
+               | None => sl "N"
+               end;
+               match C04_nest.nest l with
+               | Some t => sep COMMA (map show_code (C04_spec.missing_at_end t))
+               | None => sl "N"
+               end]
+  | _ => sl "?args"
+  end.
+
+(* C01 oracle: the specified segments of a text, with the leading-blank / trailing-separator flags *)
+Definition unit_c01_spec (args : list str) : str :=
+  match args with
+  | [t] =>
+      if C01_spec.header_ok t then
+        let d := C01_spec.header_delims t in
+        sep BAR (map (fun ln => show_seg_struct (C01_spec.seg_of_line d ln) ++ COLON ::
+                                show_bool (C01_spec.has_leading_blank ln) ++ show_bool (C01_spec.has_trailing_sep d ln))
+                     (filter C01_spec.is_segment_line (C01_spec.raw_spec (seg_term d) t)))
+      else sl "!X12Error"
+  | _ => sl "?args"
+  end.
+
+(* raw-level oracle: the specified raw segment strings *)
+Definition unit_c01_rawspec (args : list str) : str :=
+  match args with
+  | [t] =>
+      if C01_spec.header_ok t then
+        sep BAR (map show_hex (C01_spec.raw_spec (seg_term (C01_spec.header_delims t)) t))
+      else sl "!X12Error"
+  | _ => sl "?args"
+  end.
+
+Definition unit_open_path (args : list str) : str :=
+  match args with
+  | [b] => show_result (fun st => show_hex (rest st)) (open_path b)
+  | _ => sl "?args"
+  end.
+
 Definition unit_c14_spec (args : list str) : str :=
   match args with
   | [[code]; bits] => show_bool (C14_spec.violated code (map (fun c => Ascii.eqb c "1"%char) bits))
@@ -154,9 +276,16 @@ Definition dispatch (unit : str) (args : list str) : str :=
   else if str_eqb unit (sl "ctl") then unit_ctl args
   else if str_eqb unit (sl "c13_spec") then unit_c13_spec args
   else if str_eqb unit (sl "c14_spec") then unit_c14_spec args
+  else if str_eqb unit (sl "c04_spec") then unit_c04_spec args
+  else if str_eqb unit (sl "c01_spec") then unit_c01_spec args
+  else if str_eqb unit (sl "c01_rawspec") then unit_c01_rawspec args
+  else if str_eqb unit (sl "open_path") then unit_open_path args
   else if str_eqb unit (sl "path") then unit_path args
   else if str_eqb unit (sl "child_path") then unit_child_path args
   else if str_eqb unit (sl "segment") then unit_segment args
+  else if str_eqb unit (sl "raw") then unit_raw args
+  else if str_eqb unit (sl "reader") then unit_reader args
+  else if str_eqb unit (sl "writer") then unit_writer args
   else if str_eqb unit (sl "syntax") then unit_syntax args
   else if str_eqb unit (sl "split_syntax") then unit_split_syntax args
   else if str_eqb unit (sl "pyint") then unit_pyint args
